@@ -38,7 +38,7 @@ PROP = dict(
                            "monitor:name-to-id": 1000, "exhausted:generic": 20, "capacity:generic": 1792,
                            "library-type-query": 4000, "monitor:library-type-first-query": 300, "monitor:library-type-repeated-query": 3000,
                            "library-name-taken-first": 300, "monitor:library-type-name-was-taken": 200, "refused:library-type": 200,
-                           "monitor:conversion-through-library-id": 300, "exhausted:metatype": 15, "exhausted:interface": 15,
+                           "monitor:conversion-through-library-id": 300, "monitor:peek-before-first-registration": 400, "monitor:peek-after-registration": 1000, "exhausted:metatype": 15, "exhausted:interface": 15,
                            "site:metatype::generic::pointer_traits": 400, "site:metatype::basic::pointer_traits": 400,
                            "site:layout::pointer_traits": 400, "site:layout::graph::pointer_traits": 400,
                            "site:metatype::value<T>::pointer_traits": 800, "site:group::pointer_traits": 400,
